@@ -103,6 +103,11 @@ def task(R, item):
                                 cnt = fw.simplify(it.fields[0].poly())          # a heapless::Vec of colours: its length
                             elif isinstance(it, Agg) and it.name == "core::iter::once":
                                 cnt = ONE
+                            elif isinstance(it, Agg) and it.kind == "array":
+                                cnt = Poly.const(len(it.fields))           # an array of colours handed over by value
+                            elif isinstance(it, Agg) and it.name in ("core::array::into_iter", "core::iter::into_iter") and it.fields \
+                                    and isinstance(it.fields[0], Agg) and it.fields[0].kind == "array":
+                                cnt = Poly.const(len(it.fields[0].fields))
                             if cnt is None:
                                 R.undecided("C08", "%s|burst-shape" % gtag, "colour burst of draw_iter has unexpected shape %r" % (it,))
                                 continue
